@@ -142,3 +142,12 @@ Theorem C16_invalid_bytes_rejected_frames :
     flat_events r = evs /\ exists e, pr_end r = PRaise e.
 Proof. exact invalid_bytes_rejected. Qed.
 Print Assumptions C16_invalid_bytes_rejected_frames.
+
+(* non-vacuity of the byte-level rejection theorem *)
+From PJ.Proofs Require Import NonVacuity.
+Theorem C16_an_invalid_wellformed_stream_exists :
+  f_rows ex_invalid_frame <> [] /\
+  (exists i evs, run (f_rows ex_invalid_frame) = Invalid i Unfilled evs) /\ catalogued Unfilled = true /\
+  wf_frame ex_invalid_frame /\ small ex_invalid_frame.
+Proof. exact invalid_stream_premises_satisfiable. Qed.
+Print Assumptions C16_an_invalid_wellformed_stream_exists.
